@@ -44,7 +44,7 @@ SCALARS = {
 }
 FILE_ONLY = {
     "default_format": ("pretty", [("plain", "plain"), ("progress", "progress")]),
-    "scenario_outline_annotation_schema": (u"{name} -- @{row.id} {examples.name}", [("{name} [{row.id}]", "{name} [{row.id}]")]),
+    "scenario_outline_annotation_schema": (u"{name} -- @{row.id} {examples.name}", [("{name} [{row.id}]", "{name} [{row.id}]"), ("{name} -- @{row.id} \"{examples.name}\"", "{name} -- @{row.id} \"{examples.name}\"")]),
     "tag_expression_protocol": ("auto_detect", [("v1", "V1"), ("v2", "V2"), ("auto_detect", "AUTO_DETECT")]),
 }
 LISTS = {
@@ -71,8 +71,8 @@ ASSUMPTIONS = [
 REQUIRED = {"precedence.attribute": {"quick": 20000, "thorough": 1500000}, "bool.file_x_cmdline_pairs": {"quick": 200, "thorough": 200},
             "paths.relative_to_config_file": {"quick": 150, "thorough": 8000}, "list.order": {"quick": 400, "thorough": 20000},
             "userdata.define_parsing": {"quick": 2000, "thorough": 100000}, "userdata.cmdline_overrides_file": {"quick": 300, "thorough": 15000},
-            "userdata.getters": {"quick": 1500, "thorough": 60000}, "userdata.namespace_view": {"quick": 500, "thorough": 20000}, "precedence.options_around_a_bare_color": {"quick": 200, "thorough": 8000}, "outputs.paired_with_formatters_in_order": {"quick": 300, "thorough": 10000}, "couplings.documented": {"quick": 100, "thorough": 4000}}
-REQUIRED_SEEN = {"outfile_list_shape": ["stdout_placeholder_before_a_file"], "bare_color_position": ["first", "middle", "last"], "namespace_view_made": ["before_the_data", "after_the_data"],
+            "userdata.getters": {"quick": 1500, "thorough": 60000}, "userdata.namespace_view": {"quick": 500, "thorough": 20000}, "precedence.options_around_a_bare_color": {"quick": 200, "thorough": 8000}, "outputs.paired_with_formatters_in_order": {"quick": 300, "thorough": 10000}, "couplings.documented": {"quick": 100, "thorough": 4000}, "embedded.explicit_command_line_is_the_command_line": {"quick": 300, "thorough": 8000}}
+REQUIRED_SEEN = {"embedded_args": ["none_means_sys_argv", "empty_list", "empty_str", "empty_tuple", "given"], "outfile_list_shape": ["stdout_placeholder_before_a_file"], "bare_color_position": ["first", "middle", "last"], "namespace_view_made": ["before_the_data", "after_the_data"],
                  "define_value_shape": ["different_quote_characters_at_the_ends"], "namespace_name_shape": ["name_starts_with_namespace_text"], "config_file_kind": ["behave.ini", ".behaverc", "setup.cfg", "tox.ini", "pyproject.toml"],
                  "config_file_place": ["cwd", "home"], "source_deciding": ["cmdline", "file", "default"]}
 EXHAUSTIVE = True
@@ -553,7 +553,7 @@ def userdata_cases(mon, sc, rng, n):
                   lambda: dict(case=case, got_keys=got_keys, want_keys=want_keys, length=len(view)))
     # ---- typed getters --------------------------------------------------------------------------------------
     for i in range(n):
-        raw = rng.choice(["42", "-7", "3.5", "abc", "", "true", "Yes", "off", "0", "1", "2", " 12 ", "1e3", "no ", "maybe"])
+        raw = rng.choice(["007", "08080", "-012", "+08", "0x10", "1_000", "00", "42", "-7", "3.5", "abc", "", "true", "Yes", "off", "0", "1", "2", " 12 ", "1e3", "no ", "maybe"])
         ud = UserData({"k": raw})
         for getter, conv, default in (("getint", int, 0), ("getfloat", float, 0.0), ("getbool", None, False)):
             if conv is not None:
@@ -673,6 +673,62 @@ def bare_color(mon, sc, rng, n):
                   lambda: dict(case=case, got=got, want=want, color=config.color))
 
 
+def embedded_main(mon, sc, rng, n):
+    """behave started from another program: main(args) / Configuration(args) with an EXPLICIT command line -- also an empty one,
+    as list, tuple or string -- while the host program has arguments of its own in sys.argv.  Only None means 'take sys.argv'.
+    The configuration that main() hands to run_behave is recorded at that boundary."""
+    import behave.__main__ as bmain
+    from behave.configuration import Configuration
+    for i in range(n):
+        sc.clear_files()
+        file_who = rng.choice([None, "file"])
+        if file_who:
+            with open(os.path.join(sc.cwd, "behave.ini"), "w", encoding="utf-8") as fh:
+                fh.write("[behave]\nstop = false\n[behave.userdata]\nwho = file\n")
+        host = rng.choice([["--stop", "-D", "who=host"], ["--no-capture", "-n", "Second", "-D", "who=host"], ["--dry-run", "--stop"],
+                           ["--env=staging"], ["serve", "--port", "8080"]])
+        explicit = [[], "", (), ["-D", "x=1"], "-D x=1", ("--no-timings",), None][i % 7]
+        given = ["--stop", "-D", "who=host", "--no-capture"] if explicit is None else host
+        entry = ("main", "Configuration")[(i // 7) % 2]
+        case = {"entry": entry, "explicit_args": repr(explicit), "host_program_argv": ["run_tests.py"] + given, "behave.ini": bool(file_who)}
+        mon.case(("embedded", entry, repr(explicit), tuple(given), file_who), True)
+        seen = []
+        saved = (sys.argv, bmain.run_behave, sys.stdout, sys.stderr)
+        from behave.model import ScenarioOutline
+        from behave.tag_expression import TagExpressionProtocol as TEP
+        saved_schema = ScenarioOutline.annotation_schema
+        sys.argv = ["run_tests.py"] + given
+        sys.stdout = sys.stderr = io.StringIO()
+        err = None
+        try:
+            if entry == "main":
+                bmain.run_behave = lambda config, runner_class=None: (seen.append(config), 0)[1]
+                bmain.main(explicit)
+            else:
+                seen.append(Configuration(explicit))
+        except BaseException as ex:      # noqa  (SystemExit of the argument parser included)
+            err = repr(ex) + " " + sys.stderr.getvalue()[-200:]
+        finally:
+            sys.argv, bmain.run_behave, sys.stdout, sys.stderr = saved
+            ScenarioOutline.annotation_schema = saved_schema
+            TEP.use(TEP.DEFAULT)
+        if not seen:
+            mon.check("embedded.explicit_command_line_is_the_command_line", False, dict(case=case, error=err or "no configuration reached run_behave"))
+            continue
+        config = seen[0]
+        if explicit is None:
+            want = {"stop": True, "stdout_capture": False, "dry_run": False, "name": [], "show_timings": True, "who": "host", "x": None}
+            mon.seen("embedded_args", "none_means_sys_argv")
+        else:
+            flat = explicit.split() if isinstance(explicit, str) else list(explicit)
+            want = {"stop": False, "stdout_capture": True, "dry_run": False, "name": [], "show_timings": "--no-timings" not in flat,
+                    "who": file_who, "x": "1" if "x=1" in flat else None}
+            mon.seen("embedded_args", "empty_" + type(explicit).__name__ if not flat else "given")
+        got = {"stop": bool(config.stop), "stdout_capture": bool(config.stdout_capture), "dry_run": bool(config.dry_run), "name": list(config.name or []),
+               "show_timings": bool(config.show_timings), "who": config.userdata.get("who"), "x": config.userdata.get("x")}
+        mon.check("embedded.explicit_command_line_is_the_command_line", got == want, lambda: dict(case=case, got=got, want=want))
+
+
 def console_formatter(mon, sc, rng, n):
     """The formatter that ends up on the console when the configuration file names formatters (with output files) and the
     command line does not: the default formatter -- and --wip / --steps-catalog on the command line decide what that is."""
@@ -731,6 +787,7 @@ def run(spec, mon):
         formatter_outputs(mon, sc, rng, 25 if tier == "quick" else 800)
         couplings(mon, sc, rng, 10 if tier == "quick" else 300)
         console_formatter(mon, sc, rng, 12 if tier == "quick" else 300)
+        embedded_main(mon, sc, rng, 28 if tier == "quick" else 700)
     finally:
         sc.leave()
 
